@@ -56,7 +56,10 @@ PROPS = {
                      "systems are s-like orbitals at the origin (synthetic and symmetrised-random models), orbitals at inversion-symmetric "
                      "sites with parities and spinors ({E,T}, {E,I}, {E,I,T,IT} models) and the three bundled C3z models: non-symmorphic "
                      "groups and rotations acting on p/d orbitals are not covered. sdct.SDCT_asym under time reversal is a known defect "
-                     "(known finding of C08, Formula_SDCT_surf_II(sym=False)); it is reported under known_elsewhere, not as a violation",
+                     "(known finding of C08, Formula_SDCT_surf_II(sym=False)); it is reported under known_elsewhere, not as a violation. "
+                     "tetra=True calculators are compared on symmetrised-random planar models (NKdiv 4, 8, 16): a deviation of discretisation size "
+                     "(tetra=False agrees and the deviation falls below 0.6 of its value from NKdiv 4 to 16) is the known finding "
+                     "run:tetra:irreducible_vs_full, any other one is run:tetra:irreducible_vs_full:unexplained",
                 ref="DESIGN.md 3.3, 5 (C07)"),
 }
 
@@ -802,28 +805,104 @@ def compare_irr_full(rep, label, system, grids, calcs_fn, Ef, tol, stats, tag, p
     return True
 
 
-def observe_tetrahedron(rep, rng, tag, Ef):
-    """OBSERVATION, not a violation (no known-finding entry exists): TetraWeightsParal cuts every face of the K-point's parallelepiped
-    along one fixed diagonal; a 4-fold rotation or a mirror maps it to the other diagonal, so with tetra=True the irreducible +
-    symmetrised run is not the full-grid run (the difference is of the order of the discretisation error)"""
+TETRA_KEY = "run:tetra:irreducible_vs_full"
+
+
+def part_tetrahedron(rep, thorough, rng, tag):
+    """tetra=True calculators on symmetrised-random models: irreducible + symmetrised and symmetrisation alone vs the full run.
+    TetraWeightsParal cuts every face of the K-point's parallelepiped along one fixed diagonal, which a 4-fold rotation or a mirror
+    maps to the other one (known finding TETRA_KEY).  A deviation is reported under that key ONLY when it is of discretisation size:
+    the same run with tetra=False agrees to the tolerance on every grid AND the tetra deviation shrinks when NKdiv is doubled
+    (decided on CumDOS and Ohmic_FermiSea over two doublings, NKdiv 4 -> 16: below 0.6 of the initial deviation; the tetrahedron DOS -
+    a Fermi-level derivative - and AHC - a Berry-curvature integral that may vanish by symmetry - converge irregularly and follow the verdict
+    of those two in the same run and mode).  Anything else is TETRA_KEY:unexplained, a violation."""
     import wannierberri as wb
     from wannierberri import calculators as calc
-    try:
-        ham = KS.symmetric_hamiltonian("C4v", rng, nw=2, planar=True)
-        system = KS.make_system("C4v", nw=2, ham=ham, periodic=(True, True, False))
-        mk = lambda: {"cumdos_tetra": calc.static.CumDOS(Efermi=Ef, tetra=True, save_mode=""), "cumdos": calc.static.CumDOS(Efermi=Ef, save_mode="")}
-        with quiet():
-            grid = wb.Grid(system=system, NKdiv=[4, 4, 1], NKFFT=[1, 1, 1])
-        rf = KS.run_wb(system, grid, mk(), False, tag + "_num")
-        ri = KS.run_wb(system, grid, mk(), True, tag + "_num")
-        rep.part("observation_tetrahedron_with_symmetry", group="C4v", NKdiv=[4, 4, 1], NKFFT=[1, 1, 1],
-                 irreducible_vs_full_CumDOS_tetra=float(np.abs(rf.results["cumdos_tetra"].data - ri.results["cumdos_tetra"].data).max()),
-                 irreducible_vs_full_CumDOS=float(np.abs(rf.results["cumdos"].data - ri.results["cumdos"].data).max()),
-                 note="tetra=True is not compared as a violation: see the final report of the fixer (candidate finding)")
-    except MachineryError:
-        raise
-    except Exception as ex:
-        rep.part("observation_tetrahedron_with_symmetry", error=repr(ex)[:200])
+    Ef = np.linspace(-2.0, 2.0, 9) + 0.0137
+    sizes = (4, 8, 16)
+    pairs = {"cumdos_tetra": "cumdos", "ohmic_tetra": "ohmic", "ahc_tetra": "ahc", "dos_tetra": "dos"}
+    sea = ("cumdos_tetra", "ohmic_tetra")          # smooth Fermi-sea integrals of band-structure quantities: the shrink rule is decided on them
+    followers = ("ahc_tetra", "dos_tetra")        # Berry-curvature integrals that vanish by symmetry / Fermi-level derivatives converge
+    #                                               irregularly: they follow the verdict of the sea quantities of the same run and mode
+
+    def mk(tab=False):
+        sm = dict(save_mode="")
+        kf = {"external_terms": False}
+        c = {"cumdos": calc.static.CumDOS(Efermi=Ef, **sm), "dos": calc.static.DOS(Efermi=Ef, **sm),
+             "ohmic": calc.static.Ohmic_FermiSea(Efermi=Ef, **sm), "ahc": calc.static.AHC(Efermi=Ef, kwargs_formula=kf, **sm),
+             "cumdos_tetra": calc.static.CumDOS(Efermi=Ef, tetra=True, **sm), "dos_tetra": calc.static.DOS(Efermi=Ef, tetra=True, **sm),
+             "ohmic_tetra": calc.static.Ohmic_FermiSea(Efermi=Ef, tetra=True, **sm),
+             "ahc_tetra": calc.static.AHC(Efermi=Ef, tetra=True, kwargs_formula=kf, **sm)}
+        if tab:
+            c["tab"] = calc.TabulatorAll({"Energy": calc.tabulate.Energy()}, mode="grid", save_mode="")
+        return c
+    summary = {}
+    for grp in ["C4v"] + (["mC4v", "C2v"] if thorough else []):
+        done = False
+        for attempt in range(8):
+            sd = rng.randrange(1 << 30)
+            ham = KS.symmetric_hamiltonian(grp, random.Random(sd), nw=2, planar=True)
+            system = KS.make_system(grp, nw=2, ham=ham, periodic=(True, True, False))
+            info = dict(model=f"symmetrised-random[{grp}]", model_seed=sd, NKFFT=[1, 1, 1], NKdiv_sizes=list(sizes))
+            dev = {"irreducible": {}, "symmetrize_only": {}}
+            safe = True
+            failed = False
+            scales = None
+            for n in sizes:
+                try:
+                    with quiet():
+                        grid = wb.Grid(system=system, NKdiv=[n, n, 1], NKFFT=1)
+                    rf = KS.run_wb(system, grid, mk(tab=True), False, tag + "_num")
+                    if not energies_safe(rf.results["tab"].get_data(quantity="Energy"), Ef):
+                        safe = False
+                        break
+                    if scales is None:
+                        scales = KS.term_scales(system, (n, n, 1), mk(), tag + "_num")
+                    rr = {"irreducible": KS.run_wb(system, grid, mk(), True, tag + "_num"),
+                          "symmetrize_only": KS.run_wb(system, grid, mk(), False, tag + "_num", symmetrize=True)}
+                except MachineryError:
+                    raise
+                except Exception as ex:
+                    KS.report_exception(rep, ex, "run:tetra", dict(info, NKdiv=[n, n, 1]))
+                    failed = True
+                    break
+                for mode, r in rr.items():
+                    rep.case(("tetra", grp, sd, n, mode))
+                    for k in list(pairs) + list(pairs.values()):
+                        a, b = rf.results[k].data, r.results[k].data
+                        sc = max(float(np.abs(a).max()), scales.get(k, 0.0), 1e-300)
+                        dev[mode].setdefault(k, {})[n] = float(np.abs(a - b).max()) / sc
+            if failed:
+                done = True
+                break
+            if not safe:
+                continue
+            for mode in dev:
+                verdict = {}
+                for k in sea + followers:
+                    d = dev[mode][k]
+                    if max(d.values()) <= TOL:
+                        verdict[k] = "equal"
+                        continue
+                    plain_ok = max(dev[mode][pairs[k]].values()) <= TOL
+                    if k in sea:
+                        shrinks = d[sizes[0]] > TOL and d[sizes[-1]] < 0.6 * d[sizes[0]]
+                    else:
+                        shrinks = any(verdict.get(q) == "discretisation" for q in sea)
+                    verdict[k] = "discretisation" if (plain_ok and shrinks) else "unexplained"
+                    detail = dict(info, mode=mode, calculator=k, relative_deviation_by_NKdiv={str(n): v for n, v in d.items()},
+                                  same_run_with_tetra_False={str(n): v for n, v in dev[mode][pairs[k]].items()}, tolerance=TOL,
+                                  rule="known finding only if tetra=False agrees on every grid and the tetra deviation falls below 0.6 of its value from "
+                                       "NKdiv=4 to NKdiv=16 (decided on CumDOS / Ohmic_FermiSea; DOS and AHC follow them)")
+                    rep.violation(TETRA_KEY if verdict[k] == "discretisation" else TETRA_KEY + ":unexplained", detail)
+                summary[f"{grp}:{mode}"] = dict(verdict=verdict, cumdos_tetra={str(n): dev[mode]["cumdos_tetra"][n] for n in sizes})
+            done = True
+            break
+        if not done and not rep.violations:
+            raise MachineryError(f"tetrahedron part: 8 random {grp} models were all excluded by EnergiesSafe")
+    rep.part("tetrahedron_with_symmetry", deciding=True, known_finding_key=TETRA_KEY, results=summary,
+             what="CumDOS, DOS, Ohmic_FermiSea, AHC with tetra=True (and tetra=False next to them) on symmetrised-random planar models, NKdiv = 4, 8, 16: "
+                  "irreducible + symmetrised and symmetrisation alone vs full")
 
 
 def part_numeric(rep, thorough, rng, tag):
@@ -855,7 +934,6 @@ def part_numeric(rep, thorough, rng, tag):
                 models.append(grp)
             elif not rep.violations:
                 raise MachineryError(f"plan entry {grp}: 8 random models were all excluded by EnergiesSafe / NoDegeneracyOnGrid")
-    observe_tetrahedron(rep, rng, tag, Ef)
     skipped = {}
     for label, mk, grids, per_band in bundled_models():
         try:
@@ -923,9 +1001,12 @@ def check(pid, tier):
         progress("all_calculators", t0)
         part_numeric(rep, thorough, rng, tag)
         progress("real_calculators", t0)
+        part_tetrahedron(rep, thorough, rng, tag)
+        progress("tetrahedron", t0)
         KS.flush_private(rep)
         rep.part("numeric_only", parts=["float_fields", "all_calculators", "real_calculators"],
                  note="float comparisons (deciding, but not part of the model_checking level claim)")
+        rep.parts["numeric_only"]["parts"].append("tetrahedron_with_symmetry")
         rep.part("cpu_seconds", exact_parts=round(t1 - t0, 1), float_fields=round(t2 - t1, 1), all_calculators=round(t3 - t2, 1),
                  real_calculators=round(cpu_seconds() - t3, 1), **cpu_split())
     except Exception:
